@@ -127,8 +127,8 @@ func S4Provenance(p *core.Program, a *spec.Anchors, r *core.Report) {
 		total += n
 	}
 	r.Count("S4.write_sites", total)
-	r.Min("S4.write_sites", 150)
-	r.Min("S4.write_sites_store", 100)
+	r.Min("S4.write_sites", 60)
+	r.Min("S4.write_sites_store", 40)
 	r.Min("S4.write_sites_copy", 2)
 	r.Min("S4.write_sites_append", 1)
 }
@@ -347,6 +347,12 @@ func (c *s4ctx) nodeFor(k s4Obl) *s4Node {
 		what = "memory loaded from parameter " + pn
 	} else if k.one {
 		what = "the memory parameter " + pn + " points to"
+	}
+	if c.fnReset != nil && k.fn == c.fnReset && k.idx == 0 && k.field == c.a.FGctx && !k.deep && !k.one {
+		// the gradient-context field of ResetGradContext's own receiver: the one sanctioned replacement, whichever
+		// helper performs the store
+		n.note = "the gctx field of the receiver of ResetGradContext"
+		return n
 	}
 	if s45_isPublicEntry(k.fn) {
 		n.findings = append(n.findings, s4Finding{key: fk + "." + pn,
